@@ -108,6 +108,7 @@ func genReplacerTree() string {
 	sb.WriteString("def fillDialInfoCallers : List (String × String) := [" + strings.Join(callers, ", ") + "]\n")
 	sb.WriteString("\n/-- modules/caddyhttp/reverseproxy: (file, function, value) of every `Upstream{… Dial: value …}` literal -/\n")
 	sb.WriteString("def upstreamDialLiterals : List (String × String × String) := [" + strings.Join(dialLits, ", ") + "]\n")
+	sb.WriteString(genFastcgiEnv())
 	sb.WriteString(footer)
 	return sb.String()
 }
